@@ -895,10 +895,14 @@ Qed.
     made [query_entity_at] lazy). Now Count is 2 and EntityAt 2 is out of range. *)
 Definition q_lazy_cfg : script_cfg :=
   {| sc_cap := 2; sc_caprel := 1; sc_bits := 256; sc_debug := false; sc_kinds := map kind_of_code [0; 7; 8]%Z |}.
+(** (The query is opened with [query_open] directly: at operation level UnsafeFilter.Query now rejects relations
+    on components its filter does not require - [check_unsafe_rels] in Run.v - so this state is no longer
+    reachable through the script language; the cursor functions are total on it all the same.) *)
 Definition q_lazy_world : W :=
-  Common.exec q_lazy_cfg
-    [ [0]; [2; 2; 1; 2; 2; 1; 0; 2; 0]; [2; 1; 1; 1; 1; 0];
-      [15; 1; 0; 0; 0; 0]; [19; 0; 2; 1; 0; 2; 0] ]%Z.
+  state_of (query_open 0 [(1, (2, 0%N)); (2, (2, 0%N))]
+    (Common.exec q_lazy_cfg
+      [ [0]; [2; 2; 1; 2; 2; 1; 0; 2; 0]; [2; 1; 1; 1; 1; 0];
+        [15; 1; 0; 0; 0; 0] ]%Z)).
 Example query_entity_at_lazy_example :
   query_count 0 q_lazy_world = Ok 2 q_lazy_world /\
   query_entity_at 0 0 q_lazy_world = Ok (2, 0%N) q_lazy_world /\
